@@ -4,6 +4,7 @@ package session
 
 import (
 	"errors"
+	"strconv"
 	"strings"
 	"sync/atomic"
 
@@ -587,4 +588,62 @@ func C19FailedRequest() {
 	s.Terminate()
 	srv.Terminate()
 	sym.Reach("failed-request-done")
+}
+
+// C19LostRaces: five services behind five different addresses; for each of them, in turn, two goroutines
+// ask the (real) session for a proxy at the same moment, and the dial takes long enough for both to have
+// started one: one of the two loses the race for the address, every time. Whatever a request holds while it
+// dials (a slot, a lock, a place in a table) is given back on that path too: all ten requests return, the
+// pool holds one connection per address and nothing else stays open.
+func C19LostRaces() {
+	sym.Schedules(false) // one schedule (the default one makes both goroutines of a round dial): the subject is the accumulation over rounds
+	srv, s, dials := zzFullSession()
+	if s == nil {
+		return
+	}
+	const rounds = 5
+	for k := 0; k < rounds; k++ {
+		name := "multi" + strconv.Itoa(k)
+		o := bus.NewBasicObject(zzNopActor{}, object.MetaObject{Description: name}, func(string, []byte) error { return nil })
+		_, err := srv.NewService(name, o)
+		sym.Assert(err == nil, "lost-races/service-registered")
+		info, err := s.Directory.Service(name)
+		sym.Assert(err == nil && len(info.Endpoints) > 0, "lost-races/service-listed")
+		if err != nil || len(info.Endpoints) == 0 {
+			return
+		}
+		info.Endpoints = []string{"unix:///" + strings.Repeat("/", k) + strings.TrimPrefix(info.Endpoints[0], "unix://")}
+		sym.Assert(s.Directory.UpdateServiceInfo(info) == nil, "lost-races/service-updated")
+	}
+	s.updateServiceList()
+	before := atomic.LoadInt32(dials)
+	for k := 0; k < rounds; k++ {
+		name := "multi" + strconv.Itoa(k)
+		errs := make([]error, 2)
+		done := make(chan bool, 2)
+		for i := 0; i < 2; i++ {
+			go func(i int) {
+				_, errs[i] = s.Proxy(name, 1)
+				done <- true
+			}(i)
+		}
+		<-done
+		<-done
+		sym.Assert(errs[0] == nil && errs[1] == nil, "lost-races/request-failed")
+	}
+	if sym.Symbolic() {
+		// (under the engine the replaced dial yields, so both goroutines of a round dial; a native run over a
+		// real socket may or may not have lost races)
+		sym.Assert(atomic.LoadInt32(dials)-before == 2*rounds, "lost-races/scenario-has-no-lost-race")
+	}
+	s.pollMutex.RLock()
+	sym.Assert(len(s.poll) == 1+rounds, "lost-races/connections-held")
+	s.pollMutex.RUnlock()
+	sym.Quiesce()
+	if sym.Symbolic() {
+		sym.Assert(zzOpenConnections() == 1+rounds, "lost-races/connections-left-open-outside-the-pool")
+	}
+	s.Terminate()
+	srv.Terminate()
+	sym.Reach("lost-races-done")
 }
